@@ -75,6 +75,22 @@ def analyse_one(args):
         if rs[0] != "ok" or rn[0] != "ok":
             out.append((vname, over, "undecided", f"sequential: {rs[0]} {str(rs[1])[:50]}; single: {rn[0]} {str(rn[1])[:50]}", []))
             continue
+        # a single value that is the constant NaN (series shorter than the indicator's look-back) compares equal to anything: retry on
+        # a longer input, and if it is still NaN the comparison decides nothing
+        def all_nan(r):
+            vals = [b for g, b in IR.fields_of(r[1])]
+            return bool(vals) and all(isinstance(b, float) and b != b for b in vals)
+        if all_nan(rn) and n != N2:
+            n = N2
+            rs2 = IR.run_indicator(repo, rel, fn, n, True, overrides=over)
+            rn2 = IR.run_indicator(repo, rel, fn, n, False, overrides=over)
+            if rs2[0] == "ok" and rn2[0] == "ok":
+                rs, rn = rs2, rn2
+            else:
+                n = N
+        if all_nan(rn):
+            out.append((vname, over, "undecided", f"the single value is NaN on {n} candles (look-back longer than the analysed series): the comparison with the last entry decides nothing", []))
+            continue
         probs, notes = [], []
         fs, fn_ = IR.fields_of(rs[1]), IR.fields_of(rn[1])
         if len(fs) != len(fn_):
